@@ -1357,6 +1357,13 @@ class C02(_SchedProp):
         ctx.oracle("no_schedule_exceeds_the_bound", w <= R, "%s returns Ok(%d) but a legal EDF schedule has a job of the analysed task with response time %d" % (v, R, w),
                    [q], cls="oracle:unsafe:" + v, extra=dict(witness=wit))
 
+def burst_prefix(rng):
+    """delta-min prefix of a periodic burst pattern (b jobs g apart, every P), truncated to 2..7 entries"""
+    b = rng.randint(2, 3); g = rng.randint(0, 2); P = rng.randint(8, 25) + (b - 1) * g
+    tr = [k * P + i * g for k in range(6) for i in range(b)]
+    d = gen.dmin_of_trace(tr, rng.randint(2, 7))
+    return d if d and d[-1] > 0 and not gen.plateau_end(d) else [g + 1, P, P + g + 1]
+
 @register("C18")
 class C18(Prop):
     rule = ("task sets over exact realisable curves only (periodic, sporadic with jitter, extrapolating super-additive delta-min curves); "
@@ -1378,6 +1385,12 @@ class C18(Prop):
                 S = gen_fp_system(rng, families.AB_EXACT)
                 if v == "fp_np":
                     for l in S["lp"]: l["ab"] = ["periodic", 100000]          # one blocking job only
+                if S["hp"] and rng.random() < 0.35:
+                    # bursty higher-priority task given by a short delta-min prefix (odd and even lengths): the analysis window
+                    # reaches beyond the prefix, so the on-demand super-additive extrapolation decides the bound
+                    h = rng.randrange(len(S["hp"]))
+                    S["hp"][h] = ["rbf", ["extrap", ["dmin", burst_prefix(rng)]], ["scalar", rng.randint(1, 3)]]
+                    S["tua"] = ["rbf", ["periodic", rng.randint(80, 300)], ["scalar", rng.randint(4, 14)]]
                 q, tasks, vi = fp_variant_setup(v, S, rng)
                 cases.append((v, q, tasks, vi, fp_key))
         rows = ctx.run([c[1] for c in cases])
@@ -1868,16 +1881,33 @@ class C04(Prop):
                 tgt = rng.choice([i for i, c in enumerate(cbs) if c["kind"] == "polled"])
                 q = ["pp", sb, rbf(cbs[tgt]), ["agg", [rbf(c) for i, c in enumerate(cbs) if i != tgt]], limit]
             cases.append((q, cbs, sb, tgt))
+        # targeted family (mostly correspondence only, simulated 1 in 10): a bursty timer with a decreasing multiframe cost model below
+        # dense higher-priority timers -- the offset A > 0 of the second job of a burst dominates and its (cheaper) cost determines the
+        # window in which timers still interfere (Lemma 3)
+        nosim = set()
+        for k in range(ctx.scale(1600, 8000)):
+            T = rng.randint(60, 120); c1 = rng.randint(4, 9); c2 = rng.randint(1, 2); gap = rng.randint(c1 + 2, 3 * c1 + 10)
+            own = dict(kind="timer", prio=9, cost=c1, frames=[c1, c2], ab=["sporadic", T, T - gap])
+            cbs = [dict(kind="timer", prio=i, cost=rng.randint(1, 3), ab=["periodic", rng.randint(7, 16)]) for i in range(rng.randint(1, 3))] + [own]
+            if rng.random() < 0.3: cbs.append(dict(kind="polled", prio=0, cost=rng.randint(1, 3), ab=["periodic", rng.randint(40, 90)]))
+            sb = rng.choice([["dedicated"], ["periodic_s", 3, 5], ["periodic_s", rng.randint(3, 5), rng.randint(5, 7)], ["constrained_s", 3, 4, 6]])
+            rbf = lambda c: ["rbf", c["ab"], (["multiframe", c["frames"]] if c.get("frames") else ["scalar", c["cost"]])]
+            ti = cbs.index(own)
+            B = max([c["cost"] for c in cbs[ti + 1:]], default=0)
+            if k % 10: nosim.add(len(cases))
+            cases.append((["timer", sb, rbf(own), ["agg", [rbf(c) for c in cbs[:ti]]], B, rng.randint(150, 600)], cbs, sb, ti))
         rows = ctx.run([c[0] for c in cases])
         ctx.correspond(rows, relation="one")
-        for (q, cbs, sb, tgt), (_, dv, rv, mv) in zip(cases, rows):
+        for ci, ((q, cbs, sb, tgt), (_, dv, rv, mv)) in enumerate(zip(cases, rows)):
             ctx.dist("analysis", q[0]); ctx.dist("supply", sb[0])
             if not dv or dv[0] != "ok": ctx.dist("outcome", dv[0] if dv else "none"); continue
             ctx.dist("outcome", "ok")
+            suspicious = bool(mv) and mv[0] == "ok" and dv[1] < mv[1]       # below the model's (proved safe) value: search harder
+            if ci in nosim and not suspicious: continue
             R = min(dv[1], rv[1]) if rv and rv[0] == "ok" else dv[1]
             H = min(500, 2 * q[-1])
             worst = 0; wit = None
-            for tr in range(2 if ctx.tier == "quick" else 5):
+            for tr in range(12 if suspicious else 2 if ctx.tier == "quick" else 5):
                 sup = supply_pattern(sb, H + 400, rng, worst=(tr == 0))
                 if q[0] == "es":
                     for victim in range(len(cbs)):
